@@ -17,40 +17,203 @@ Notation lookup := MiniPyR.lookup.
 Definition repair_env (ce : string -> list val -> res val) (fuel : nat) : string -> list val -> res val :=
   fun f args => if String.eqb f "path_matching" then run_fun ce fuel path_matching_def args else ce f args.
 
-(* TARGET STATEMENTS
+(* All the target statements of this file are proved below, exactly as described, with the elided hypotheses written out in full:
+   repair_dna_source, C09_clean_source, C09_output_shape_source, C10_returns_source and the Example repair_knot_nonvacuous.
+   "The hypotheses of repair_dna_gen" are, besides repair_callees_ok ce (path_matching itself is discharged by
+   PathMatchingGenProofs.path_matching_gen_nonneg, since repair_dna_gen only asks for it at 0 <= occ):
+     Forall (fun row => length row = 4%nat) acc   (implied by `shaped acc` where that is a hypothesis: shaped_rows4),
+     1 <= k                                       (in C10: from (1 <= k)%nat),
+     0 <= heap,
+     match vt with Some c => c <> [] | None => True end     (a supplied check is not empty),
+     (S (length s) < fuel)%nat.
+   Nothing is left in this comment. *)
 
+(* ---- the callee environment satisfies what repair_dna_gen asks of it ------------------------------------------------------------ *)
+Lemma repair_env_callees ce fuel : repair_callees_ok ce -> repair_callees_ok (repair_env ce fuel).
+Proof.
+  intros [H1 H2]. split.
+  - intros s. unfold repair_env. change (String.eqb "dna_to_number" "path_matching") with false. cbv iota. apply H1.
+  - intros s n Hn. unfold repair_env. change (String.eqb "set_vt" "path_matching") with false. cbv iota. apply H2. exact Hn.
+Qed.
+
+Lemma repair_env_path_matching ce fuel acc has_indel : Forall (fun row => length row = 4%nat) acc ->
+  forall s' prev occ, 0 <= occ ->
+    repair_env ce fuel "path_matching" [VStr s'; varr2 acc; VInt prev; VInt occ; VBool has_indel; VNone]
+    = res_of_matching occ (Repair.path_matching s' acc prev occ has_indel).
+Proof.
+  intros Hacc s' prev occ Hocc. unfold repair_env. change (String.eqb "path_matching" "path_matching") with true. cbv iota.
+  apply path_matching_gen_nonneg; assumption.
+Qed.
+
+(* the bridge from the vocabulary of the properties *)
+Lemma shaped_rows4 acc : shaped acc -> Forall (fun row => length row = 4%nat) acc.
+Proof. intros [H _]. exact H. Qed.
+
+(* ---- repair_dna of the current source, with path_matching of the current source as its callee ----------------------------------- *)
 Theorem repair_dna_source : forall ce fuel s acc v0 k vt has_indel heap,
-  repair_callees_ok ce -> (hypotheses of repair_dna_gen: rows of four entries, 1 <= k, 0 <= heap, a non-empty check,
-                           S (length s) < fuel ... exactly what RepairDnaGenProofs.repair_dna_gen needs) ->
+  repair_callees_ok ce ->
+  Forall (fun row => length row = 4%nat) acc -> 1 <= k -> 0 <= heap ->
+  match vt with Some c => c <> [] | None => True end ->
+  (S (length s) < fuel)%nat ->
   run_fun (repair_env ce fuel) fuel repair_dna_def [VStr s; varr2 acc; VInt v0; VInt k; v_optstr' vt; VBool has_indel; VInt heap]
   = res_of_repair (Repair.repair_dna s acc v0 k vt has_indel heap).
-   (repair_callees_ok (repair_env ce fuel) follows from repair_callees_ok ce since the names differ; the path_matching hypothesis of
-    repair_dna_gen is discharged by path_matching_gen -- repair_dna only passes occ = k - recall - 1 >= 0; if repair_dna_gen's
-    hypothesis quantifies over ALL occ, use the model's own equation for occ = -1 ... or better: ask for what is needed and report.)
+Proof.
+  intros ce fuel s acc v0 k vt has_indel heap Hce Hacc Hk Hheap Hvt Hfuel.
+  apply repair_dna_gen.
+  - apply repair_env_callees. exact Hce.
+  - apply repair_env_path_matching. exact Hacc.
+  - exact Hacc.
+  - exact Hk.
+  - exact Hheap.
+  - exact Hvt.
+  - exact Hfuel.
+Qed.
 
+(* ---- C09 for the source text ---------------------------------------------------------------------------------------------------- *)
 Theorem C09_clean_source : forall ce fuel s acc v0 k vt indel heap, repair_callees_ok ce ->
-  shaped acc -> in_range acc v0 -> is_walk acc v0 s -> (the hypotheses above) ->
+  shaped acc -> in_range acc v0 -> is_walk acc v0 s ->
+  1 <= k -> 0 <= heap -> match vt with Some c => c <> [] | None => True end -> (S (length s) < fuel)%nat ->
   exists flag count visited,
     run_fun (repair_env ce fuel) fuel repair_dna_def [VStr s; varr2 acc; VInt v0; VInt k; v_optstr' vt; VBool indel; VInt heap]
     = Ret (VTuple [VList (map VStr (if check_okb vt s then [s] else [])); VTuple [VInt 0; VBool flag; VInt count; VInt visited]]).
-   (from RepairProofs.repair_clean)
+Proof.
+  intros ce fuel s acc v0 k vt indel heap Hce Hs Hv Hw Hk Hheap Hvt Hfuel.
+  destruct (repair_clean s acc v0 k vt indel heap Hs Hv Hw) as (flag & count & visited & E).
+  exists flag, count, visited.
+  rewrite (repair_dna_source ce fuel s acc v0 k vt indel heap Hce (shaped_rows4 acc Hs) Hk Hheap Hvt Hfuel).
+  rewrite E. reflexivity.
+Qed.
+
+Lemma map_VStr_inj : forall a b : list (list Z), map VStr a = map VStr b -> a = b.
+Proof.
+  induction a as [|x xs IH]; intros [|y ys] H; try discriminate; [reflexivity|].
+  cbn [map] in H. injection H as H1 H2. subst y. f_equal. apply IH. exact H2.
+Qed.
 
 Theorem C09_output_shape_source : forall ce fuel s acc v0 k vt indel heap cands d flag count visited, repair_callees_ok ce ->
-  (the hypotheses above) ->
-  run_fun (repair_env ce fuel) fuel repair_dna_def [...] = Ret (VTuple [VList (map VStr cands); VTuple [VInt d; VBool flag; VInt count; VInt visited]]) ->
+  Forall (fun row => length row = 4%nat) acc -> 1 <= k -> 0 <= heap ->
+  match vt with Some c => c <> [] | None => True end -> (S (length s) < fuel)%nat ->
+  run_fun (repair_env ce fuel) fuel repair_dna_def [VStr s; varr2 acc; VInt v0; VInt k; v_optstr' vt; VBool indel; VInt heap]
+  = Ret (VTuple [VList (map VStr cands); VTuple [VInt d; VBool flag; VInt count; VInt visited]]) ->
   StronglySorted lexlt cands /\ (forall c, In c cands -> check_okb vt c = true).
-   (the run determines the model result -- res_of_repair is injective on Ok results -- then RepairProofs.repair_output_shape)
+Proof.
+  intros ce fuel s acc v0 k vt indel heap cands d flag count visited Hce Hacc Hk Hheap Hvt Hfuel Hrun.
+  rewrite (repair_dna_source ce fuel s acc v0 k vt indel heap Hce Hacc Hk Hheap Hvt Hfuel) in Hrun.
+  destruct (Repair.repair_dna s acc v0 k vt indel heap) as [[cands' [[[d' flag'] count'] visited']]|e|] eqn:E;
+    cbn [res_of_repair] in Hrun; try discriminate.
+  injection Hrun as Hc _ _ _ _. apply map_VStr_inj in Hc. subst cands'.
+  exact (repair_output_shape s acc v0 k vt indel heap cands _ E).
+Qed.
 
+(* ---- C10 for the source text ---------------------------------------------------------------------------------------------------- *)
 Theorem C10_returns_source : forall ce fuel s acc v0 (k : nat) vt indel heap, repair_callees_ok ce ->
-  (1 <= k)%nat -> shaped acc -> nrows acc = pow4 k -> in_range acc v0 -> acgt s -> (k <= length s)%nat -> (the hypotheses above) ->
+  (1 <= k)%nat -> shaped acc -> nrows acc = pow4 k -> in_range acc v0 -> acgt s -> (k <= length s)%nat ->
+  0 <= heap -> match vt with Some c => c <> [] | None => True end -> (S (length s) < fuel)%nat ->
   exists cands d flag count visited,
     run_fun (repair_env ce fuel) fuel repair_dna_def [VStr s; varr2 acc; VInt v0; VInt (Z.of_nat k); v_optstr' vt; VBool indel; VInt heap]
     = Ret (VTuple [VList (map VStr cands); VTuple [VInt d; VBool flag; VInt count; VInt visited]])
     /\ 0 <= visited <= Z.of_nat (length s) * (1 + 16 * Z.of_nat k * Z.of_nat k) /\ 0 <= d <= Z.of_nat (length s).
-   (from TerminationProofs.repair_total; `lookups st` / `detected st` are projections of the statistics tuple)
+Proof.
+  intros ce fuel s acc v0 k vt indel heap Hce Hk Hs Hn Hv Ha Hks Hheap Hvt Hfuel.
+  destruct (repair_total s acc v0 k vt indel heap Hk Hs Hn Hv Ha Hks) as (cands & [[[d flag] count] visited] & E & Hl & Hd).
+  exists cands, d, flag, count, visited.
+  rewrite (repair_dna_source ce fuel s acc v0 (Z.of_nat k) vt indel heap Hce (shaped_rows4 acc Hs) ltac:(lia) Hheap Hvt Hfuel).
+  rewrite E. cbn [lookups detected] in Hl, Hd. split; [reflexivity|]. split; assumption.
+Qed.
 
-   plus a non-vacuity Example by vm_compute with a concrete ce built from the models (dna_to_number_int, set_vt) on the GC-balanced
-   order-2 accessor: a clean walk, a walk with one substitution that is repaired, a wrong check.
-   Keep the file compiling at all times; whatever cannot be finished stays in the comment.  End the file with Print Assumptions for
-   every proved theorem (all must be Closed under the global context).
-*)
+(* ---- non-vacuity: a concrete callee environment built from the models, the GC-balanced order-2 accessor (the one of
+        Properties/C10.v), start vertex AC.  Every hypothesis of the theorems above is satisfiable at once, and the runs are the
+        expected ones: a clean walk with its check, a clean walk with a wrong check, one substitution (two candidates without a
+        check, the check singles out the original), a check that no candidate reproduces, heap limit 0. ---- *)
+Definition ce_models : string -> list val -> res val := fun f args =>
+  if String.eqb f "dna_to_number" then
+    match args with
+    | [VStr s; VBool false] => match dna_to_number_int s with Ok n => Ret (VInt n) | Raise e => Exn e | OutOfFuel => Fuel end
+    | _ => Stuck
+    end
+  else if String.eqb f "set_vt" then
+    match args with
+    | [VStr s; VInt n] => match set_vt s n with Ok r => Ret (VStr r) | Raise e => Exn e | OutOfFuel => Fuel end
+    | _ => Stuck
+    end
+  else Stuck.
+Definition gc_acc : accessor :=
+  [[-1;-1;-1;-1]; [4;-1;-1;7]; [8;-1;-1;11]; [-1;-1;-1;-1]; [-1;1;2;-1]; [-1;-1;-1;-1]; [-1;-1;-1;-1]; [-1;13;14;-1];
+   [-1;1;2;-1]; [-1;-1;-1;-1]; [-1;-1;-1;-1]; [-1;13;14;-1]; [-1;-1;-1;-1]; [4;-1;-1;7]; [8;-1;-1;11]; [-1;-1;-1;-1]].
+Definition w_clean : list Z := [84;67;84;67;84;67;84;67;84;67;84;67].     (* TCTCTCTCTCTC, a walk from AC *)
+Definition w_subst : list Z := [84;67;84;67;84;65;84;67;84;67;84;67].     (* TCTCTATCTCTC: position 5 substituted *)
+Definition w_other : list Z := [84;67;84;67;84;71;84;67;84;67;84;67].     (* TCTCTGTCTCTC, the other walk one substitution away *)
+
+Lemma ce_models_ok : repair_callees_ok ce_models.
+Proof. split; intros; reflexivity. Qed.
+
+Lemma gc_shaped : shaped gc_acc.
+Proof. split; unfold rows4, entries_in_range, nrows, gc_acc; cbn [length Z.of_nat]; repeat constructor; lia. Qed.
+
+Lemma walk_step acc v c t j : nuc_index c = Some j -> in_range acc v -> 0 <= entry acc v j -> is_walk acc (entry acc v j) t ->
+  is_walk acc v (c :: t).
+Proof. intros H1 H2 H3 H4. cbn [is_walk]. exists j. auto. Qed.
+
+Lemma gc_walk : is_walk gc_acc 1 w_clean.
+Proof.
+  unfold w_clean.
+  repeat (eapply walk_step;
+    [vm_compute; reflexivity | unfold in_range, nrows; vm_compute; split; [discriminate|reflexivity] | vm_compute; discriminate
+    | match goal with |- is_walk ?a ?v ?s => let v' := eval vm_compute in v in change (is_walk a v' s) end]).
+  exact I.
+Qed.
+
+Example repair_knot_nonvacuous :
+  (* the hypotheses *)
+  repair_callees_ok ce_models /\ shaped gc_acc /\ nrows gc_acc = pow4 2 /\ in_range gc_acc 1 /\ is_walk gc_acc 1 w_clean
+  /\ acgt w_subst /\ (2 <= length w_subst)%nat /\ (S (length w_subst) < 20)%nat
+  /\ set_vt w_clean 2 = Ok [65;67] /\ set_vt w_other 2 = Ok [67;67]
+  (* a clean walk with its check AC: returned alone, no error detected *)
+  /\ run_fun (repair_env ce_models 20) 20 repair_dna_def
+       [VStr w_clean; varr2 gc_acc; VInt 1; VInt 2; v_optstr' (Some [65;67]); VBool false; VInt 1000]
+     = Ret (VTuple [VList [VStr w_clean]; VTuple [VInt 0; VBool false; VInt 1; VInt 12]])
+  (* the same walk with a wrong check CC: nothing *)
+  /\ run_fun (repair_env ce_models 20) 20 repair_dna_def
+       [VStr w_clean; varr2 gc_acc; VInt 1; VInt 2; v_optstr' (Some [67;67]); VBool true; VInt 1000]
+     = Ret (VTuple [VList []; VTuple [VInt 0; VBool true; VInt 1; VInt 12]])
+  (* one substitution, no check: both walks one substitution away, sorted *)
+  /\ run_fun (repair_env ce_models 20) 20 repair_dna_def
+       [VStr w_subst; varr2 gc_acc; VInt 1; VInt 2; v_optstr' None; VBool true; VInt 1000]
+     = Ret (VTuple [VList [VStr w_clean; VStr w_other]; VTuple [VInt 1; VBool false; VInt 2; VInt 14]])
+  (* one substitution, check AC: repaired to the original *)
+  /\ run_fun (repair_env ce_models 20) 20 repair_dna_def
+       [VStr w_subst; varr2 gc_acc; VInt 1; VInt 2; v_optstr' (Some [65;67]); VBool true; VInt 1000]
+     = Ret (VTuple [VList [VStr w_clean]; VTuple [VInt 1; VBool true; VInt 2; VInt 14]])
+  (* one substitution, a check GC that no candidate reproduces: nothing *)
+  /\ run_fun (repair_env ce_models 20) 20 repair_dna_def
+       [VStr w_subst; varr2 gc_acc; VInt 1; VInt 2; v_optstr' (Some [71;67]); VBool true; VInt 1000]
+     = Ret (VTuple [VList []; VTuple [VInt 1; VBool true; VInt 2; VInt 14]])
+  (* heap limit 0: the candidates are not enumerated, the observed strand is tested against the check *)
+  /\ run_fun (repair_env ce_models 20) 20 repair_dna_def
+       [VStr w_subst; varr2 gc_acc; VInt 1; VInt 2; v_optstr' (Some [71;67]); VBool true; VInt 0]
+     = Ret (VTuple [VList []; VTuple [VInt 0; VBool true; VInt 0; VInt 14]])
+  (* and every run above is the model's answer (repair_dna_source at this instance) *)
+  /\ run_fun (repair_env ce_models 20) 20 repair_dna_def
+       [VStr w_subst; varr2 gc_acc; VInt 1; VInt 2; v_optstr' (Some [65;67]); VBool true; VInt 1000]
+     = res_of_repair (Repair.repair_dna w_subst gc_acc 1 2 (Some [65;67]) true 1000).
+Proof.
+  split; [exact ce_models_ok|]. split; [exact gc_shaped|]. split; [reflexivity|].
+  split; [unfold in_range, nrows; cbn [gc_acc length Z.of_nat]; lia|]. split; [exact gc_walk|].
+  split; [unfold acgt, w_subst; repeat constructor|]. split; [cbn [w_subst length]; lia|]. split; [cbn [w_subst length]; lia|].
+  split; [vm_compute; reflexivity|]. split; [vm_compute; reflexivity|].
+  split; [vm_compute; reflexivity|]. split; [vm_compute; reflexivity|]. split; [vm_compute; reflexivity|].
+  split; [vm_compute; reflexivity|]. split; [vm_compute; reflexivity|]. split; [vm_compute; reflexivity|].
+  apply repair_dna_source.
+  - exact ce_models_ok.
+  - exact (shaped_rows4 gc_acc gc_shaped).
+  - lia.
+  - lia.
+  - discriminate.
+  - cbn [w_subst length]. lia.
+Qed.
+
+Print Assumptions repair_dna_source.
+Print Assumptions C09_clean_source.
+Print Assumptions C09_output_shape_source.
+Print Assumptions C10_returns_source.
+Print Assumptions repair_knot_nonvacuous.
